@@ -1,8 +1,8 @@
-"""Scratch module: contracts being brought up before they join a property's check."""
+"""Contracts on constructors, registry construction, error rendering, Path.from_text, Invoke.glomit: claimed by several checks via common.shared()."""
 from pyvc.verify import Post, Case, Equiv, NativeFacts
 from contracts import common
 
-PROPERTY = 'X'
+PROPERTY = 'extra'
 REF_MODULES = ['ref_extra', 'ref_core']
 
 
@@ -75,7 +75,7 @@ def contracts():
     cs.append(Equiv('matching.Switch.__init__', 'ref_extra.switch_init_ref', args={'self': 'inst:matching.Switch', 'cases': 'ref', 'default': 'ref'}))
     for name, kw in (('plain', 'kw:'), ('default', 'kw:default'), ('bogus', 'kw:bogus')):
         cs.append(Equiv('matching._Bool.__init__', 'ref_extra.bool_init_ref', label='matching._Bool.__init__[%s]' % name,
-                        args={'self': 'inst:matching.And', 'children': 'seq', 'kw': kw}))
+                        args={'self': 'inst:matching.And', 'children': 'seq', 'kw': kw}, raise_only=(name == 'bogus')))
     for name, kw in (('none', 'kw:'), ('kw', 'kw:k')):
         cs.append(Equiv('core.TType.__call__', 'ref_extra.ttype_call_ref', label='core.TType.__call__[%s]' % name,
                         args={'self': 'inst:core.TType', 'args': 'seq', 'kwargs': kw}, requires=['len(self.__ops__) >= 1', 'self.__ops__[0] is not A']))
